@@ -233,6 +233,9 @@ type c31Case struct {
 	Front   string   `json:"front,omitempty"`   // "" = tcp4 | tcp6 | pp4 | pp6 (how the client reaches the proxy)
 	BV      string   `json:"backends,omitempty"` // "" = single | failover | v6 | hostname (the route's backend list)
 	Status  bool     `json:"status,omitempty"`  // next state 1: a status ping instead of a login
+	// the backend finishes first: it sends its bytes and half-closes at once; the client sends its later chunks only
+	// after it has read every backend byte (default: the client sends everything, reads, and half-closes first)
+	BackendFirst bool `json:"backend_finishes_first,omitempty"`
 	Chunks  []string `json:"-"`
 }
 
@@ -254,7 +257,9 @@ var ppClient = map[string]string{"pp4": "203.0.113.7:4242", "pp6": "[2001:db8::7
 //   failover: [127.0.0.2:D (bound, not listening: refuses), 127.0.0.1:B4] - the second one gets the connection
 //   v6:       [[::1]:B6]
 //   hostname: [localhost:B4], and TCPShield real-IP is switched on through the deprecated realIP option
-var backendVariants = []string{"single", "failover", "v6", "hostname"}
+//   closer-first (status pings only): [127.0.0.1:C (accepts, closes without answering), 127.0.0.1:B4] - the first
+//             backend gets the handshake and fails the status exchange, the second one answers
+var backendVariants = []string{"single", "failover", "v6", "hostname", "closer-first"}
 
 func bvHost(bv string) string {
 	switch bv {
@@ -354,15 +359,21 @@ type backendResult struct {
 // backend connection the proxy made for the case has been collected - without any timer.
 var sentinelMagic = []byte("\x00c31-sentinel\x00\xde\xad\xbe\xef")
 
+type backendScript struct {
+	chunks    [][]byte
+	halfClose bool // shut the write side down after the last chunk
+}
+
 type rig struct {
 	p        *proxy.Proxy
 	front    map[string]net.Listener // clients connect here; accepted conns go to HandleConn
 	back     net.Listener            // 127.0.0.1:B4
 	back6    net.Listener            // [::1]:B6 (nil when the machine has no IPv6 loopback)
+	closer   net.Listener            // accepts and closes at once
 	deadFD   int                     // socket bound to 127.0.0.2:D, never listening: connecting is refused
 	deadAddr string
 	backRes  chan backendResult
-	backSend chan [][]byte
+	backSend chan backendScript
 	accepted chan struct{} // one token per backend connection accepted
 	hostOf   map[int]string
 }
@@ -382,16 +393,19 @@ func (g *rig) serveBackend(ln net.Listener) {
 		}
 		g.accepted <- struct{}{}
 		// one case at a time: what to send was queued before the client connected
-		var send [][]byte
+		var send backendScript
 		select {
 		case send = <-g.backSend:
 		default:
 		}
 		go func() {
-			for _, ch := range send {
+			for _, ch := range send.chunks {
 				if _, err := c.Write(ch); err != nil {
 					break
 				}
+			}
+			if send.halfClose {
+				_ = c.(*net.TCPConn).CloseWrite()
 			}
 		}()
 		got, err := io.ReadAll(c)
@@ -402,7 +416,7 @@ func (g *rig) serveBackend(ln net.Listener) {
 }
 
 func newRig() (*rig, error) {
-	g := &rig{backRes: make(chan backendResult, 64), backSend: make(chan [][]byte, 1), accepted: make(chan struct{}, 64), hostOf: map[int]string{},
+	g := &rig{backRes: make(chan backendResult, 64), backSend: make(chan backendScript, 1), accepted: make(chan struct{}, 64), hostOf: map[int]string{},
 		front: map[string]net.Listener{}, deadFD: -1}
 	var err error
 	for _, k := range fronts {
@@ -423,6 +437,18 @@ func newRig() (*rig, error) {
 		return nil, err
 	}
 	g.back6, _ = net.Listen("tcp", "[::1]:0")
+	if g.closer, err = net.Listen("tcp", "127.0.0.1:0"); err != nil {
+		return nil, err
+	}
+	go func() {
+		for {
+			c, err := g.closer.Accept()
+			if err != nil {
+				return
+			}
+			_ = c.Close()
+		}
+	}()
 	// a refusing backend whose port stays reserved: bound, but never listening
 	if fd, err := syscall.Socket(syscall.AF_INET, syscall.SOCK_STREAM, 0); err == nil {
 		if err = syscall.Bind(fd, &syscall.SockaddrInet4{Addr: [4]byte{127, 0, 0, 2}}); err == nil {
@@ -459,6 +485,8 @@ func newRig() (*rig, error) {
 			backends = []string{g.back6.Addr().String()}
 		case "hostname":
 			backends = []string{"localhost:" + b4port}
+		case "closer-first":
+			backends = []string{g.closer.Addr().String(), g.back.Addr().String()}
 		}
 		for i := 0; i < 16; i++ {
 			o := opts{i&1 != 0, i&2 != 0, i&4 != 0, i&8 != 0}
@@ -538,6 +566,7 @@ func (g *rig) close() {
 		_ = ln.Close()
 	}
 	_ = g.back.Close()
+	_ = g.closer.Close()
 	if g.back6 != nil {
 		_ = g.back6.Close()
 	}
@@ -557,12 +586,12 @@ type caseResult struct {
 }
 
 // runCase plays one connection. Returns hung=true when the watchdog fired.
-func (g *rig) runCase(front string, hsBytes []byte, cl, bk stream, sameSeg, status bool) caseResult {
+func (g *rig) runCase(front string, hsBytes []byte, cl, bk stream, sameSeg, status, backendFirst bool) caseResult {
 	var res caseResult
 	if front == "" {
 		front = "tcp4"
 	}
-	g.backSend <- bk.Chunks
+	g.backSend <- backendScript{chunks: bk.Chunks, halfClose: backendFirst}
 	c, err := net.Dial("tcp", g.front[front].Addr().String())
 	if err != nil {
 		res.clientErr = err
@@ -604,21 +633,30 @@ func (g *rig) runCase(front string, hsBytes []byte, cl, bk stream, sameSeg, stat
 		if !status {
 			<-g.accepted
 		}
-		for _, ch := range chunks {
-			if _, err := c.Write(ch); err != nil {
-				res.clientErr = err
-				return
-			}
-		}
 		want := 0
 		for _, ch := range bk.Chunks {
 			want += len(ch)
 		}
 		buf := make([]byte, want)
+		sendRest := func() bool {
+			for _, ch := range chunks {
+				if _, err := c.Write(ch); err != nil {
+					res.clientErr = err
+					return false
+				}
+			}
+			return true
+		}
+		if !backendFirst && !sendRest() {
+			return
+		}
 		n, err := io.ReadFull(c, buf)
 		res.clientGot = buf[:n]
 		if err != nil {
 			res.clientErr = err
+		}
+		if backendFirst && !sendRest() {
+			return
 		}
 		_ = c.(*net.TCPConn).CloseWrite()
 		// drain until the proxy closes our connection
@@ -698,6 +736,9 @@ func firstDiff(a, b []byte) int {
 // check compares what the backend and the client saw with the reference.
 func (g *rig) check(c c31Case, o opts, hs hsSpec, host string, hsBytes, hsCanon []byte, cl, bk stream, sameSeg bool, res caseResult) (key, desc string) {
 	ctx := fmt.Sprintf("options=%+v handshake=%s host=%q client=%s backend=%s same-segment=%v", o, hs.Name, host, cl.Name, bk.Name, sameSeg)
+	if c.BackendFirst {
+		ctx += " backend-finishes-first"
+	}
 	if c.Front != "" || c.BV != "" || c.Status {
 		ctx += fmt.Sprintf(" front=%s(client %s) backends=%s status-ping=%v", c.Front, res.clientAddr, c.BV, c.Status)
 	}
@@ -776,6 +817,9 @@ func (g *rig) check(c c31Case, o opts, hs hsSpec, host string, hsBytes, hsCanon 
 		if !strings.Contains(h.addr, "///"+res.clientAddr+"///") {
 			return "to-backend/tcpshield-real-ip", ctx + fmt.Sprintf(": server address %q does not carry the client's real address %s", h.addr, res.clientAddr)
 		}
+		if n := strings.Count(h.addr, "///"+res.clientAddr+"///"); n > 1 {
+			return "to-backend/tcpshield-real-ip-applied-twice", ctx + fmt.Sprintf(": server address %q carries the client's real address %d times (the rewrite was applied to an already rewritten handshake)", h.addr, n)
+		}
 		i := strings.Index(h.addr, "///"+res.clientAddr+"///")
 		ts, _, _ := strings.Cut(h.addr[i+len(res.clientAddr)+6:], "\x00")
 		if _, err := strconv.ParseInt(ts, 10, 64); err != nil {
@@ -847,7 +891,7 @@ func TestVerif(t *testing.T) {
 			}
 			host, wire, canon := buildHS(hs, rh)
 			cl, bk := find(allCls, c.Client), find(allBks, c.Backend)
-			res := g.runCase(c.Front, wire, cl, bk, c.SameSeg, c.Status)
+			res := g.runCase(c.Front, wire, cl, bk, c.SameSeg, c.Status, c.BackendFirst)
 			if res.hung {
 				return "", fmt.Sprintf("case %+v did not finish within 60 s", c), true
 			}
@@ -971,6 +1015,38 @@ func TestVerif(t *testing.T) {
 			r.Class(kind + ":front=" + f + "/backends=" + b)
 			return true
 		}
+		// ---- ordering: the backend finishes first (sends, half-closes), the client keeps sending afterwards
+	backendFirst:
+		for opt := 0; opt <= 16; opt++ {
+			for _, hs := range hss {
+				for _, p := range [][2]string{{"login-start", "login-success"}, {"three-chunks", "three-chunks"}, {"40KiB", "one-byte"}, {"three-chunks", "empty"}} {
+					for _, same := range []bool{false, true} {
+						c := c31Case{Opt: opt, HS: hs.Name, Client: p[0], Backend: p[1], SameSeg: same, BackendFirst: true}
+						i++
+						if !r.Mine(i) {
+							continue
+						}
+						if r.Expired() || wedged {
+							break backendFirst
+						}
+						k, d, hung := one(c)
+						n++
+						if hung {
+							r.NotExhaustive(d)
+							wedged = true
+							break backendFirst
+						}
+						if k != "" {
+							r.Violation(k, d, c)
+							r.Class("violating")
+							continue
+						}
+						nt++
+						r.Class("order:backend-finishes-first")
+					}
+				}
+			}
+		}
 	variants:
 		for _, f := range fronts {
 			for _, bv := range backendVariants {
@@ -978,7 +1054,7 @@ func TestVerif(t *testing.T) {
 					for _, hs := range hss {
 						for _, same := range []bool{false, true} {
 							c := c31Case{Opt: opt, HS: hs.Name, SameSeg: same, Front: f, BV: bv}
-							if !(f == "tcp4" && bv == "single") {
+							if !(f == "tcp4" && bv == "single") && bv != "closer-first" {
 								c.Client, c.Backend = "login-start", "login-success"
 								if !runV(c, hs.Name) {
 									break variants
